@@ -2,7 +2,7 @@
 raw draws reduced modulo what exists, so any subsequence of a fault list is valid."""
 
 LINE_KINDS = ['drop', 'dup', 'swap', 'tear', 'long', 'bignum', 'id0', 'garbage']
-BYTE_KINDS = ['flip', 'ins', 'del', 'badutf8', 'nul', 'truncate', 'cr']
+BYTE_KINDS = ['flip', 'ins', 'del', 'badutf8', 'nul', 'truncate', 'cr', 'bom']
 
 GARBAGE = ['[1.5] wl_foo@3.bar(', '[1.5]  -> @3.bar()', '[x] a@1.b()', '[1.5] a@1.b(]', '[1.5] a@1.b("unterminated)',
            '[1.5] wl_display@1.delete_id()', '[1.5] wl_display@1.delete_id("x")', '[1.5] wl_display@1.delete_id(99)',
@@ -90,6 +90,12 @@ def apply_byte_faults(data, faults, counts=None):
             # a lone carriage return (progress output redrawn with \r, or just before a message)
             nl = data.find(b'\n', off)
             data.insert(off if (r2 % 2 or nl < 0) else nl + 1, 13)
+        elif kind == 'bom':
+            # a byte-order mark: at the very start of the stream (a program whose first write carries one), or at the
+            # start of a later line
+            nl = data.find(b'\n', off)
+            at = 0 if (r2 % 3 or nl < 0) else nl + 1
+            data[at:at] = b'\xef\xbb\xbf'
         elif kind == 'truncate':
             del data[off:]
         if counts is not None:
